@@ -224,12 +224,20 @@ pub fn run_history_lsp_pre(ctx: &mut Ctx, open: &str, disk: Option<&str>, notes:
                         changes.push(json!({"text": e.text}));
                     }
                     Some((s, t)) => {
+                        // the deprecated but valid `rangeLength` (UTF-16 units of the replaced
+                        // client text, as VS Code sends it) on every other ranged change
+                        let range_len: Option<usize> = model.slice(s, t).map(|old| old.encode_utf16().count());
                         if !model.apply(s, t, &e.text) {
                             ctx.excluded("generator produced an invalid edit");
                             lsp.kill();
                             return Ok(());
                         }
-                        changes.push(json!({"range": {"start": {"line": s.line, "character": s.col}, "end": {"line": t.line, "character": t.col}}, "text": e.text}));
+                        let mut ch = json!({"range": {"start": {"line": s.line, "character": s.col}, "end": {"line": t.line, "character": t.col}}, "text": e.text});
+                        if let (Some(n), true) = (range_len, (changes.len() + ni) % 2 == 0) {
+                            ch["rangeLength"] = json!(n);
+                            ctx.class("change carrying rangeLength");
+                        }
+                        changes.push(ch);
                     }
                 }
             }
